@@ -8,15 +8,73 @@ spec forms:
   {"b": "<hex>"}                bytes
   {"t": [..]} {"l": [..]} {"fs": [..]} {"d": [[k, v], ..]}
   {"big": [kind, n, tag]}       deterministic large value: kind in bytes|str|pickle|crstr
+  {"sub": [kind, spec]}         instance of a subclass of str | bytes | int | float (simdc.vals.StrSub ...)
 """
 import math
 import pickle
+
+
+class StrSub(str):
+    """Values that are instances of SUBCLASSES of the natively stored types: they come back as what they were."""
+    def __repr__(self):
+        return 'StrSub(%s)' % str.__repr__(self)
+
+
+class BytesSub(bytes):
+    def __repr__(self):
+        return 'BytesSub(%s)' % bytes.__repr__(self)
+
+
+class IntSub(int):
+    def __repr__(self):
+        return 'IntSub(%s)' % int.__repr__(self)
+
+
+class FloatSub(float):
+    def __repr__(self):
+        return 'FloatSub(%s)' % float.__repr__(self)
+
+
+class Rec:
+    """A user-defined value whose pickling calls back into Python (__getstate__): under the simulator that is a point at
+    which another client may run, as a thread switch or a re-entrant call may in real use."""
+
+    def __init__(self, tag, pad=0):
+        self.tag = tag
+        self.pad = 'p' * pad
+
+    def __getstate__(self):
+        from . import seams
+        s = seams.ACTIVE
+        if s is not None and s.current is not None:
+            s.seam('pickle', self.tag)
+        return {'tag': self.tag, 'pad': self.pad}
+
+    def __setstate__(self, state):
+        self.__dict__.update(state)
+
+    def __eq__(self, other):
+        return type(other) is Rec and other.tag == self.tag and other.pad == self.pad
+
+    def __hash__(self):
+        return hash(('Rec', self.tag))
+
+    def __repr__(self):
+        return 'Rec(%r, %d)' % (self.tag, len(self.pad))
+
+
+SUBS = {'str': (StrSub, str), 'bytes': (BytesSub, bytes), 'int': (IntSub, int), 'float': (FloatSub, float)}
 
 
 def enc(obj):
     if obj is None or obj is True or obj is False:
         return obj
     t = type(obj)
+    for kind, (cls, base) in SUBS.items():
+        if t is cls:
+            return {'sub': [kind, enc(base(obj))]}
+    if t is Rec:
+        return {'rec': [obj.tag, len(obj.pad)]}
     if t is int:
         return obj if abs(obj) < 2 ** 53 else {'i': str(obj)}
     if t is float:
@@ -78,6 +136,10 @@ def dec(spec):
         return {dec(a): dec(b) for a, b in v}
     if k == 'big':
         return big(*v)
+    if k == 'sub':
+        return SUBS[v[0]][0](dec(v[1]))
+    if k == 'rec':
+        return Rec(v[0], v[1])
     if k == 'pkl':
         import pickletools
         return pickletools.optimize(pickle.dumps(dec(v[0]), protocol=v[1]))
